@@ -33,12 +33,22 @@ FUNCS = [
     ('pydbml.renderer.dbml.default.expression', 'render_expression', [('model', 'expression')], False),
     ('pydbml.renderer.sql.default.enum', 'render_enum_item', [('model', 'enumitem')], False),
     ('pydbml.renderer.dbml.default.sticky_note', 'render_sticky_note', [('model', 'stickynote')], False),
+    # the Note { ... } block
+    ('pydbml.renderer.dbml.default.note', 'render_note', [('model', 'NOTE')], False),
+    # the PRIMARY KEY clause of a pk index
+    ('pydbml.renderer.sql.default.index', 'render_pk', [('model', 'index'), ('keys', 'pystr')], False),
+    # the qualified name of a table / an enum, as both renderers spell it
+    ('pydbml.renderer.sql.default.utils', 'get_full_name_for_sql', [('model', 'named')], False),
+    ('pydbml.renderer.dbml.default.table', 'get_full_name_for_dbml', [('model', 'named')], False),
 ]
 # attributes of model records: python attribute -> (Coq accessor, is it Optional[str])
 RECORDS = {
     'expression': {'text': ('x_text', False)},
     'enumitem': {'name': ('ei_name', True), 'comment': ('ei_comment', True)},
     'stickynote': {'name': ('sn_name', False), 'text': ('sn_text', False)},
+    'index': {'comment': ('i_comment', True)},
+    # anything with a schema and a name (Table, Enum): the record is declared in the prelude of GenFns.v
+    'named': {'schema': ('nm_schema', True), 'name': ('nm_name', True)},
 }
 # names a translated function may use from its module: python name -> (module it must come from, Coq term)
 IMPORTED = {'indent': {'textwrap': 'textwrap_indent'}}
@@ -147,6 +157,12 @@ class Tr:
                 return '(mem %s %s)' % (self.one_char(l, 'left side of in'), self.expr(r))
             if isinstance(op, ast.Eq) and isinstance(r, ast.Constant) and r.value == '':
                 return '(is_nil %s)' % self.expr(l)
+            if isinstance(op, ast.Eq) and isinstance(r, ast.Constant) and isinstance(r.value, str) and r.value \
+                    and isinstance(l, ast.Attribute) and isinstance(l.value, ast.Name) and self.types.get(l.value.id) in RECORDS:
+                acc, opt = RECORDS[self.types[l.value.id]].get(l.attr, (None, None))
+                if acc and opt:
+                    # Optional[str] attribute == non-empty constant: None is different from every string
+                    return '(ostr_eqb (%s %s) (Some %s))' % (acc, l.value.id, cstr(r.value))
         if isinstance(c, ast.UnaryOp) and isinstance(c.op, ast.Not):
             return '(is_nil %s)' % self.expr(c.operand)
         if isinstance(c, ast.BoolOp) and isinstance(c.op, ast.And) and len(c.values) == 2:
@@ -205,7 +221,9 @@ def generate():
     import importlib
     out = ['(* GENERATED by tools/translate_fns.py from the source text of the functions — do not edit *)',
            'From Coq Require Import List NArith Bool.', 'From PyDBML Require Import PyStr Py Heap Tools.', 'Import ListNotations.', '',
-           '(* s * n *)', 'Definition py_mul (s : pystr) (n : nat) : pystr := concat (repeat s n).', '']
+           '(* s * n *)', 'Definition py_mul (s : pystr) (n : nat) : pystr := concat (repeat s n).', '',
+           '(* an object with a schema and a name (Table, Enum), as get_full_name_for_sql / _dbml read it *)',
+           'Record named := mkNamed { nm_schema : option pystr; nm_name : option pystr }.', '']
     known = []
     for mod, name, params, raises in FUNCS:
         m = importlib.import_module(mod)
@@ -238,7 +256,7 @@ def generate():
         body = tr.block(fd.body)
         sig = ' '.join('(%s : %s)' % ((p + '_text') if t == 'NOTE' else p, 'pystr' if t == 'NOTE' else t) for p, t in params)
         cname = name
-        if any(t in RECORDS for _, t in params):
+        if any(t in RECORDS for _, t in params) and not (name.endswith('_sql') or name.endswith('_dbml')):
             cname = '%s_%s' % (name, 'sql' if '.sql.' in mod else 'dbml')     # the same function name exists per renderer package
         out.append('(* %s.%s *)' % (mod, name))
         out.append('Definition gen_%s %s : %s :=\n  %s.' % (cname, sig, 'res pystr' if raises else 'pystr', body))
